@@ -354,6 +354,223 @@ fn check_encode<T: Pixel>(acc: &mut Acc, idx: u64, c: &EncCase) {
 
 use yuvxyb::CastFromPrimitive;
 
+// ---- history independence -----------------------------------------------------------------------
+//
+// "Repeating a conversion gives bit-identical output" and "output pixel i depends only on input
+// pixel i" also mean: a conversion's result does not depend on which conversions ran before it
+// (the library has no caches, scratch buffers or other hidden state). Explored as all call
+// histories of length 2 and 3 of the form [a, b] and [a, b, a] over an operation alphabet, each
+// history executed on a fresh thread (so thread-local state starts empty) and every result compared
+// with the result the same operation gives as the first call of a fresh thread.
+
+use super::c14::{Conv, Meta, PAIRS};
+
+#[derive(Clone, Copy, Debug)]
+pub struct HOp {
+    conv: Conv,
+    meta: Meta,
+    variant: u8,
+}
+
+fn hop_json(o: &HOp) -> Value {
+    json!({"conv": format!("{:?}", o.conv), "meta": o.meta.json(), "variant": o.variant})
+}
+fn hop_from(v: &Value) -> HOp {
+    HOp { conv: super::c14::conv_from(v["conv"].as_str().unwrap()), meta: Meta::from_json(&v["meta"]), variant: v["variant"].as_u64().unwrap() as u8 }
+}
+
+fn hist_run_t<T: Pixel>(o: &HOp) -> Result<Vec<u32>, String> {
+    let (w, h) = match o.variant {
+        0 => (2usize, 2usize),
+        1 => (3, 1),
+        _ => (4, 4),
+    };
+    let m = &o.meta;
+    let n = if m.wide { 10 } else { 8 };
+    let cfg = cfg_full(n, m.full, (0, 0), m.m, m.t, m.p);
+    let fdata: Vec<[f32; 3]> = (0..w * h).map(|i| fcontent(i + 17 * o.variant as usize)).collect();
+    let max = ((1u32 << n) - 1) as u16;
+    let e = |e: yuvxyb::ConversionError| format!("{e:?}");
+    let fb = |d: &[[f32; 3]]| -> Vec<u32> { d.iter().flat_map(|p| p.iter().map(|c| c.to_bits())).collect() };
+    let yb = |y: &Yuv<T>| -> Vec<u32> { y.data().iter().flat_map(|p| plane_samples(p).into_iter().map(u32::from)).collect() };
+    let yuv = || -> Yuv<T> {
+        let f = Frame {
+            planes: [
+                plane_new::<T>(w, h, 0, 0, 0, 0, |x, y| code(0, x + o.variant as usize, y, max), None),
+                plane_new::<T>(w, h, 0, 0, 0, 0, |x, y| code(1, x + o.variant as usize, y, max), None),
+                plane_new::<T>(w, h, 0, 0, 0, 0, |x, y| code(2, x + o.variant as usize, y, max), None),
+            ],
+        };
+        Yuv::new(f, cfg).expect("well-formed")
+    };
+    guarded(|| -> Result<Vec<u32>, String> {
+        Ok(match o.conv {
+            Conv::YuvToRgb => fb(Rgb::try_from(&yuv()).map_err(e)?.data()),
+            Conv::RgbToYuv => yb(&Yuv::<T>::try_from((&Rgb::new(fdata.clone(), w, h, m.t, m.p).unwrap(), cfg)).map_err(e)?),
+            Conv::RgbToLin => fb(LinearRgb::try_from(Rgb::new(fdata.clone(), w, h, m.t, m.p).unwrap()).map_err(e)?.data()),
+            Conv::LinToRgb => fb(Rgb::try_from((LinearRgb::new(fdata.clone(), w, h).unwrap(), m.t, m.p)).map_err(e)?.data()),
+            Conv::YuvToLin => fb(LinearRgb::try_from(&yuv()).map_err(e)?.data()),
+            Conv::LinToYuv => yb(&Yuv::<T>::try_from((LinearRgb::new(fdata.clone(), w, h).unwrap(), cfg)).map_err(e)?),
+            Conv::YuvToXyb => fb(Xyb::try_from(&yuv()).map_err(e)?.data()),
+            Conv::XybToYuv => yb(&Yuv::<T>::try_from((Xyb::new(fdata.clone(), w, h).unwrap(), cfg)).map_err(e)?),
+            Conv::RgbToXyb => fb(Xyb::try_from(Rgb::new(fdata.clone(), w, h, m.t, m.p).unwrap()).map_err(e)?.data()),
+            Conv::XybToRgb => fb(Rgb::try_from((Xyb::new(fdata.clone(), w, h).unwrap(), m.t, m.p)).map_err(e)?.data()),
+        })
+    })?
+}
+fn hist_run(o: &HOp) -> Result<Vec<u32>, String> {
+    if o.meta.wide {
+        hist_run_t::<u16>(o)
+    } else {
+        hist_run_t::<u8>(o)
+    }
+}
+
+/// Operation alphabet: every conversion x a metadata set in which, from each of four base
+/// triples, every single field takes all of its values (so any cache keyed on a subset of the
+/// fields meets two operations that agree on the key and differ elsewhere) x image variants.
+fn hist_ops(tier: Tier) -> Vec<HOp> {
+    use crate::refmodel::{ALL_MATRICES, ALL_PRIMARIES, ALL_TRANSFERS};
+    let bases = [
+        (MC::BT709, CP::BT709, TC::BT1886),
+        (MC::Identity, CP::BT470BG, TC::SRGB),
+        (MC::ICtCp, CP::BT2020, TC::PerceptualQuantizer),
+        (MC::YCgCo, CP::P3DCI, TC::HybridLogGamma),
+    ];
+    let mut metas: Vec<(MC, CP, TC, bool, bool)> = vec![];
+    let nb = tier.pick(2, 4);
+    for &(m, p, t) in bases.iter().take(nb) {
+        for &m2 in ALL_MATRICES.iter().filter(|x| **x != MC::Unspecified && **x != MC::Reserved) {
+            metas.push((m2, p, t, false, false));
+        }
+        for &p2 in ALL_PRIMARIES.iter().filter(|x| **x != CP::Unspecified && **x != CP::Reserved && **x != CP::Reserved0) {
+            metas.push((m, p2, t, false, false));
+        }
+        for &t2 in crate::refmodel::SUPPORTED_TRANSFERS.iter() {
+            metas.push((m, p, t2, false, false));
+        }
+        metas.push((m, p, t, true, false));
+        metas.push((m, p, t, false, true));
+        metas.push((m, p, t, true, true));
+    }
+    let _ = ALL_TRANSFERS;
+    metas.sort_by_key(|x| format!("{x:?}"));
+    metas.dedup();
+    let mut ops = vec![];
+    let variants: &[u8] = match tier {
+        Tier::Quick => &[0, 2],
+        Tier::Thorough => &[0, 1, 2],
+    };
+    for (m, p, t, wide, full) in metas {
+        for (a, b, _) in PAIRS {
+            for conv in [a, b] {
+                for &variant in variants {
+                    ops.push(HOp { conv, meta: Meta { m, p, t, wide, full }, variant });
+                }
+            }
+        }
+    }
+    ops
+}
+
+fn fresh<R: Send + 'static>(f: impl FnOnce() -> R + Send + 'static) -> R {
+    std::thread::spawn(f).join().expect("history thread")
+}
+
+/// Run a history on a fresh thread; returns the result of every call.
+fn run_history(ops: Vec<HOp>) -> Vec<Result<Vec<u32>, String>> {
+    fresh(move || {
+        crate::explore::install_panic_hook_thread();
+        ops.iter().map(hist_run).collect()
+    })
+}
+
+fn check_histories(rep: &mut Report, tier: Tier, base_idx: u64) {
+    let ops = hist_ops(tier);
+    let n = ops.len();
+    // reference: each operation as the first call of a fresh thread
+    let refs: Vec<Result<Vec<u32>, String>> = {
+        let acc = std::sync::Mutex::new(vec![None; n]);
+        par_chunks(n as u64, 64, |_, lo, hi| {
+            for i in lo..hi {
+                let r = run_history(vec![ops[i as usize]]).pop().unwrap();
+                acc.lock().unwrap()[i as usize] = Some(r);
+            }
+        });
+        acc.into_inner().unwrap().into_iter().map(|x| x.unwrap()).collect()
+    };
+    let acc = par_chunks(n as u64, 1, |acc, lo, _| {
+        let a = lo as usize;
+        let ops2 = ops.clone();
+        let refs2 = refs.clone();
+        // one fresh thread per first operation a: [a, b1, a, b2, a, ...]
+        let bad: Option<(Vec<usize>, String)> = fresh(move || {
+            crate::explore::install_panic_hook_thread();
+            let mut trace = vec![a];
+            if hist_run(&ops2[a]) != refs2[a] {
+                return Some((trace, "the same first call gives different results on two fresh threads".to_string()));
+            }
+            for b in 0..ops2.len() {
+                trace.push(b);
+                if hist_run(&ops2[b]) != refs2[b] {
+                    return Some((trace, format!("{:?} after {:?}", ops2[b], ops2[a])));
+                }
+                trace.push(a);
+                if hist_run(&ops2[a]) != refs2[a] {
+                    return Some((trace, format!("{:?} again after {:?}", ops2[a], ops2[b])));
+                }
+            }
+            None
+        });
+        acc.states += 2 * n as u64;
+        acc.transitions += 2 * n as u64 + 1;
+        match bad {
+            None => acc.bucket("histories [a,b] and [a,b,a]: every result equals the fresh-thread result", 2 * n as u64),
+            Some((trace, what)) => {
+                // minimise: the last two / three calls alone, else the whole prefix
+                let last = *trace.last().unwrap();
+                let mut candidates: Vec<Vec<usize>> = vec![];
+                if trace.len() >= 2 {
+                    candidates.push(trace[trace.len() - 2..].to_vec());
+                }
+                if trace.len() >= 3 {
+                    candidates.push(trace[trace.len() - 3..].to_vec());
+                }
+                candidates.push(trace.clone());
+                let mut chosen = trace.clone();
+                for c in candidates {
+                    let res = run_history(c.iter().map(|&i| ops[i]).collect());
+                    if res.last().unwrap() != &refs[last] {
+                        chosen = c;
+                        break;
+                    }
+                }
+                acc.violation(
+                    base_idx + lo,
+                    format!("result-depends-on-call-history conv={:?}", ops[last].conv),
+                    format!("a history of {} calls on a fresh thread ends with a result that differs from the same call made first: {what}", chosen.len()),
+                    json!({"kind":"c11hist","ops": chosen.iter().map(|&i| hop_json(&ops[i])).collect::<Vec<_>>()}),
+                );
+            }
+        }
+    });
+    rep.acc.merge(acc);
+    rep.acc.sample(json!({"history_alphabet": n, "example_op": hop_json(&ops[n / 2])}));
+    rep.extra.insert("history_ops".into(), json!(n));
+}
+
+fn replay_history(case: &Value) -> (bool, String) {
+    let ops: Vec<HOp> = case["ops"].as_array().unwrap().iter().map(hop_from).collect();
+    let last = *ops.last().unwrap();
+    let reference = run_history(vec![last]).pop().unwrap();
+    let got = run_history(ops.clone()).pop().unwrap();
+    if got != reference {
+        (true, format!("result-depends-on-call-history conv={:?} :: after {} earlier calls the result differs from the same call made first", last.conv, ops.len() - 1))
+    } else {
+        (false, "history independent".into())
+    }
+}
+
 // ---- driver -------------------------------------------------------------------------------------
 
 fn dec_cases(tier: Tier) -> Vec<DecCase> {
@@ -449,8 +666,11 @@ pub fn run(tier: Tier) -> Report {
         }
     });
     rep.acc.merge(acc);
+    check_histories(&mut rep, tier, base + ec.len() as u64);
+    rep.guard_bucket("histories [a,b] and [a,b,a]: every result equals the fresh-thread result");
     rep.bound = format!(
-        "image sizes {:?}^2 (plus long/large shapes such as 128x2, 2x128, 257x1, 256x4, 320x8) restricted to multiples of the subsampling x 6 subsamplings x u8/u16 x 2 metadata sets: {} YUV sources (each to Rgb, LinearRgb, Xyb; by reference, by value, repeated, and rebuilt with {} other paddings/poisons; 0..=32 on each axis at 4x4 and 8x8), {} float->float conversions (8 kinds), {} encodes (4 source kinds)",
+        "call histories [a,b] and [a,b,a] over an alphabet of {} operations (10 conversions x metadata varying every field from {} base triples x {} image variants), each on a fresh thread; image sizes {:?}^2 (plus long/large shapes such as 128x2, 2x128, 257x1, 256x4, 320x8) restricted to multiples of the subsampling x 6 subsamplings x u8/u16 x 2 metadata sets: {} YUV sources (each to Rgb, LinearRgb, Xyb; by reference, by value, repeated, and rebuilt with {} other paddings/poisons; 0..=32 on each axis at 4x4 and 8x8), {} float->float conversions (8 kinds), {} encodes (4 source kinds)",
+        rep.extra.get("history_ops").and_then(|v| v.as_u64()).unwrap_or(0), tier.pick(2, 4), tier.pick(2, 3),
         sizes(tier), dc.len(), pads(tier, 5, 5).len(), fc.len(), ec.len()
     );
     rep.rule = "output dims = input dims; output pixel (x,y) bit-identical to the conversion of the 1x1 4:4:4 image of Y(x,y), U(x>>ss_x,y>>ss_y), V(..) (resp. of the single float pixel); subsampled encode: luma = 4:4:4 luma, each chroma sample among its block's 4:4:4 chroma, plane sizes (w>>ss_x,h>>ss_y); identical results for every padding/stride/poison; borrowed sources equal to a prior clone; second run identical".into();
@@ -478,6 +698,7 @@ pub fn replay(case: &Value) -> (bool, String) {
             }
         }
         "c11float" => check_float(&mut acc, 0, g("w"), g("h"), case["op"].as_str().unwrap()),
+        "c11hist" => return replay_history(case),
         _ => {
             let c = EncCase { w: g("w"), h: g("h"), ss: (case["ss"][0].as_u64().unwrap() as u8, case["ss"][1].as_u64().unwrap() as u8), wide: case["u16"].as_bool().unwrap(), k: g("meta") as u8, src: g("src") as u8 };
             if c.wide {
